@@ -309,12 +309,28 @@ class SymBlock:
     _pyvc_symbolic = True
     _isa_native = ()
 
-    def __init__(self, shape, dtype=None, origin=None, label="block", fields=None):
+    def __init__(self, shape, dtype=None, origin=None, label="block", fields=None, view_of=None):
         self.shape = tuple(shape)
         self.dtype = dtype
         self.origin = origin
         self.label = label
         self.fields = fields
+        # memory: a view shares the buffer of its base; anything else is a fresh allocation (reported to the live-memory
+        # meter of the path, if one is switched on)
+        self.base = view_of.base if view_of is not None else self
+        if view_of is None:
+            try:
+                m = getattr(sym.cur(), "meter", None)
+            except Exception:  # noqa: BLE001
+                m = None
+            if m is not None:
+                m.alloc(self)
+
+    def nbytes_term(self):
+        n = self.dtype.itemsize if self.dtype is not None and hasattr(self.dtype, "itemsize") else 1
+        for s_ in self.shape:
+            n = n * s_
+        return n
 
     @property
     def ndim(self):
@@ -396,7 +412,7 @@ class SymBlock:
                         out.append(a)
                 return src(tuple(out))
 
-        return SymBlock(new_shape, self.dtype, origin, self.label)
+        return SymBlock(new_shape, self.dtype, origin, self.label, view_of=self)
 
     def _pyvc_setitem(self, interp, idx, val):
         idx = self._norm_index(idx)
@@ -516,7 +532,7 @@ class _NXP:
         if x.origin is not None:
             src = x.origin
             origin = lambda loc: src(tuple(l for i, l in enumerate(loc) if i not in axes))
-        return SymBlock(shape, x.dtype, origin, "expand_dims")
+        return SymBlock(shape, x.dtype, origin, "expand_dims", view_of=x if isinstance(x, SymBlock) else None)
 
     def squeeze(self, x, axis=None):
         self._note("squeeze")
@@ -535,7 +551,7 @@ class _NXP:
                 it = iter(loc)
                 return src(tuple(0 if i in axes else next(it) for i in range(x.ndim)))
 
-        return SymBlock(shape, x.dtype, origin, "squeeze")
+        return SymBlock(shape, x.dtype, origin, "squeeze", view_of=x if isinstance(x, SymBlock) else None)
 
     def permute_dims(self, x, axes):
         self._note("permute_dims")
@@ -551,7 +567,7 @@ class _NXP:
                     out[a] = loc[i]
                 return src(tuple(out))
 
-        return SymBlock(shape, x.dtype, origin, "permute_dims")
+        return SymBlock(shape, x.dtype, origin, "permute_dims", view_of=x if isinstance(x, SymBlock) else None)
 
     def reshape(self, x, shape, **k):
         self._note("reshape")
@@ -562,7 +578,7 @@ class _NXP:
             n2 = n2 * s
         if interp.truth(n1 != n2):
             raise PyExc(ValueError, ("cannot reshape array",))
-        return SymBlock(shape, x.dtype, None, "reshape")
+        return SymBlock(shape, x.dtype, None, "reshape", view_of=x)
 
     def broadcast_to(self, x, shape):
         self._note("broadcast_to")
@@ -582,7 +598,7 @@ class _NXP:
             def origin(loc):
                 return src(tuple(wrap(z3.If(tz(a) == 1, z3.IntVal(0), tz(l))) for a, l in zip(xs, loc[off:])))
 
-        return SymBlock(shape, getattr(x, "dtype", None), origin, "broadcast_to")
+        return SymBlock(shape, getattr(x, "dtype", None), origin, "broadcast_to", view_of=x if isinstance(x, SymBlock) else None)
 
     def concat(self, arrays, axis=0):
         self._note("concat")
@@ -620,7 +636,7 @@ class _NXP:
         if x.origin is not None:
             src = x.origin
             origin = lambda loc: src(tuple(x.shape[i] - 1 - l if i in axes else l for i, l in enumerate(loc)))
-        return SymBlock(x.shape, x.dtype, origin, "flip")
+        return SymBlock(x.shape, x.dtype, origin, "flip", view_of=x if isinstance(x, SymBlock) else None)
 
     def unstack(self, x, axis=0):
         self._note("unstack")
